@@ -193,3 +193,13 @@ claim("C12",
       "character-offset mismatch that makes ErrorMessages::composed panic (span_units.SU2). NOT proved: the rest of the code base, stack depth, time.",
       "Preconditions (validated take bounds, operator arities as the resolver builds them, id counters below usize::MAX) are assumptions about call sites "
       "that are not themselves verified; RQ/PL supplied as JSON can violate them.")
+
+prop("C08", ["literals"],
+     not_covered="lexer escape decoding (chumsky), float text round trip, date/time/interval literals, f-string lowering, relation literal rows, "
+                 "dialects whose string literals treat backslash as an escape (finding F9: not under contract)")
+claim("C08",
+      "PARTIAL. Proved on the real code: translate_literal emits a string / raw string as SingleQuotedString with exactly the same characters for every "
+      "dialect and every content (TL1s, TL1r), integers / floats as the std rendering of the same value, booleans and null exactly (TL1i, TL1f, TL1b, "
+      "TL1n); the lexer's number conversion yields the i64 the digits spell when they fit, otherwise the f64 they spell, and the 0 fallback only for "
+      "text that is neither (LN1-3). NOT proved: escape decoding in the lexer, float formatting round trip, backslash-escaping dialects.",
+      "sqlparser's Display (quote doubling) is trusted; str::parse and format! are uninterpreted; date/time/interval arms are not under contract.")
